@@ -86,7 +86,7 @@ pub struct CInfo {
 pub fn step_consist(con: &mut Consist, demand: Result<usize, f64>, dt: f64, eng: u8) -> CInfo {
     let mut info = CInfo { dt, demand: 0.0, m: 0.0, r: 0.0, drv: 0.0, b: 0.0, unit_lims: vec![], accepted: false, panicked: false, err: String::new() };
     let res = guarded(|| -> Result<(), String> {
-        con.set_pwr_aux(Some(true)).map_err(|e| format!("{e:#}"))?;
+        con.set_pwr_aux(eng_cmd(eng)).map_err(|e| format!("{e:#}"))?;
         con.set_cur_pwr_max_out(None, dt * uc::S).map_err(|e| format!("{e:#}"))?;
         info.m = con.state.pwr_out_max.value;
         info.r = con.state.pwr_regen_max.value;
